@@ -41,10 +41,18 @@ FINISHED = {"2", "4", "8", "C"}  # filled, canceled, rejected, expired
 
 # presentation only (rotated by VERIF_SEED)
 POOL = [
-    ("ord", "US.F.TICKER", "1", 200.0),
-    ("clordTest", "MSFT", "2", 99.5),
-    ("A7", "VOD.L", "1", 10.25),
-    ("x-y", "ES", "2", 4321.0),
+    ("ord", "US.F.TICKER", "1", 200.0, "000000"),
+    ("clordTest", "MSFT", "2", 99.5, "ACC-1"),
+    ("A7", "VOD.L", "1", 10.25, "000000"),
+    ("x-y", "ES", "2", 4321.0, "7"),
+]
+# the same with non-ASCII text in the text-like arguments of the fabrication API (ticker, account of the order):
+# Latin-1 high, BMP, CJK and one astral character
+POOL_U = [
+    ("ord", "M\u00dcL.\u20ac", "1", 200.0, "M\u00fcller-\u00d1and\u00fa \u6f22\u5b57 \U0001f600"),
+    ("clordTest", "\u6f22\u5b57.L", "2", 99.5, "caf\u00e9-\u20ac-\U0001f600"),
+    ("A7", "\u00d1AND\u00da", "1", 10.25, "\U0001f600 \u00fc \u20ac \u5b57"),
+    ("x-y", "\u20acUR\U0001f600", "2", 4321.0, "M\u00fcller \u6f22"),
 ]
 QTY_A, QTY_B = 10, 12  # the two order quantities (q and q')
 
@@ -58,6 +66,7 @@ CL_PROC = "are processed by the order object without error"
 CHECK_REJECT_ORDERID = True  # a cancel reject must carry the OrderID of the order's execution reports
 # (depth, last level whose states also emit arbitrary accepted reports as leaf states, state budget) of the fabrication BFS; script length of the fidelity part
 A_QUICK, A_THOROUGH = (5, -1, 400), (7, 2, 3000)
+AU_QUICK, AU_THOROUGH = 1, 3  # BFS depth of the second pass with the non-ASCII order
 B_QUICK, B_THOROUGH = 5, 6
 # other public state-touching helper methods as chain ops: states of level <= these bounds also emit the state after
 # reset_messages() / after registering a second order as a leaf state (full grid, not extended): (reset, second order)
@@ -258,9 +267,9 @@ def new_state(names):
     from asyncfix import FIXTester
     from asyncfix.protocol.order_single import FIXNewOrderSingle
 
-    root, ticker, side, price = names
+    root, ticker, side, price, account = names
     ft = FIXTester(schema=None)
-    o = FIXNewOrderSingle(root, ticker, side=side, price=price, qty=QTY_A)
+    o = FIXNewOrderSingle(root, ticker, side=side, price=price, qty=QTY_A, account=account)
     return ft, o, Track(price)
 
 
@@ -291,7 +300,8 @@ def helper_method(ft, o, name):
     elif name == "reg_again":
         ft.order_register_single(o)
     elif name == "reg2":
-        o2 = FIXNewOrderSingle(o.clord_id_root + "B", o.ticker, side=o.side, price=o.price, qty=QTY_A)
+        o2 = FIXNewOrderSingle(o.clord_id_root + "B", o.ticker, side=o.side, price=o.price, qty=QTY_A,
+                               account=o.account)
         ft.order_register_single(o2)
         return o2
     else:
@@ -825,6 +835,12 @@ def run(ctx):
 
     # ---- (a) fabrication
     totals, levels, expanded, unexpanded, seen = run_a(ctx, names, depth, wild, max_states)
+    names_u = POOL_U[ctx.seed % len(POOL_U)]
+    tu, levels_u, expanded_u, unexpanded_u, _seen_u = run_a(ctx, names_u, AU_QUICK if ctx.quick else AU_THOROUGH, -1,
+                                                            max_states)
+    for k, v in tu.items():
+        totals[k] = totals.get(k, 0) + v
+    expanded += expanded_u
     fold(ctx, totals, run_session(names).pack())
     # ---- (b) fidelity
     fb = c20_world.run_fidelity(ctx, blen)
@@ -843,14 +859,14 @@ def run(ctx):
         "instance; the states after reset_messages() / a second registration are also chain states (leaves) for the "
         "first levels; non-trivial = helper call that returned a message. "
         "(b) every clean session script (initiator Logon, then initiator/acceptor app message, TestRequest, Heartbeat, "
-        "Logout; nothing after a Logout) up to the length bound x 2 start-counter pairs, run against "
+        "Logout, and - one step shorter - application messages with non-ASCII text both ways; nothing after a Logout) up to the length bound x 2 start-counter pairs, run against "
         "FIXTester(connection=conn) and against a real AsyncFIXDummyServer on a fake link, compared after every step"
     )
     ctx.bounds = {"a_depth": depth, "a_arbitrary_report_leaves_from_levels_upto": wild, "a_state_budget": max_states,
                   "a_reset_messages_and_second_order_leaves_from_levels_upto": list(HELPER_LEAF),
                   "a_helper_method_probes": "after every grid slice: reset_messages / register again / register a second "
                                             f"order, then {PROBE_REPORTS} reports re-fabricated and judged against the whole history",
-                  "a_states_per_level": levels, "a_states_expanded": expanded,
+                  "a_states_per_level": levels, "a_non_ascii_order_states_per_level": levels_u, "a_states_expanded": expanded,
                   "a_states_found_not_expanded": unexpanded,
                   "grid": "17 x 14 x {nan,0,q/2,q} x {nan,0,E/2,E,E-cum} x {nan,q/2,q,cum-cum0} x {nan,p+1} x {nan,q'} x "
                           "own ClOrdIDs x {None,id}", "quantities": [QTY_A, QTY_B],
@@ -872,7 +888,7 @@ def run(ctx):
         "behaviour of helper and order does not depend on the numeric suffix of a ClOrdID nor on the concrete OrderID / ExecID values (not part of the state key)",
         "an exception raised by the helper itself (AssertionError or other) is a refusal: the argument combination is out of scope",
         "ClOrdID arguments are restricted to the ids the order currently holds (a foreign id is rejected by the order object; pinned by test_exec_report_clord_mismatch)",
-        "order is a LIMIT order with finite price and a string account; quantities 10 and 12",
+        "order is a LIMIT order with finite price and a string account; quantities 10 and 12; a second, shallower BFS uses an order with non-ASCII ticker / account",
         "chains are extended with exchange-consistent reports only (all other accepted reports are judged and processed one step deep)",
         "quick tier: FIXSchema.validate (0.6 ms per call) runs on every message showing a new tag set or a new (tag, value) pair; the independent dictionary reading runs on every message; thorough tier: FIXSchema.validate on every distinct content",
         "fidelity: no virtual time passes during a script (heartbeat timers never fire); application hooks do not send",
